@@ -6,11 +6,11 @@ import FeatherModel.Model.RemapTree
 Nothing in this file looks at `RemapTree.remap*`.
 
 * `Ref` — one reference position; `refsClass` — the *independent traversal*: all reference positions of a class in
-  document order, including the ones `remap.rs` does not touch (descriptors of `invokedynamic` / dynamic constants,
-  enum constants in annotations) and the ones it drops (record components).
+  document order, including the ones `remap.rs` does not touch (enum constants in annotations) and the ones it drops
+  (record components).
 * `applyRef r owner` — what the remapper answers for a reference (`owner` = the class declaring a member).
 * `codeApply r owner` — what `remap.rs` does at a position of that kind: differs from `applyRef` exactly on
-  `dynDesc` (copied) and on the constant of `enumConst` (copied).
+  the constant of `enumConst` (copied).
 * `eraseClass` — the shape: the same tree with every reference position blanked. Signatures, annotation element names,
   `InnerClass.inner_name`, local variable names and the names of `invokedynamic` / dynamic constants are *not*
   reference positions of this traversal (no remapper primitive answers for them); they are part of the shape, and listed as
@@ -69,7 +69,6 @@ def applyRef (r : Remapper) (owner : JStr) : Ref → Option Ref
 
 /-- what `remap.rs` does at a position of this kind -/
 def codeApply (r : Remapper) (owner : JStr) : Ref → Option Ref
-  | .dynDesc d => some (.dynDesc d)
   | .enumConst t c => (r.mapDesc t).map fun t' => .enumConst t' c
   | x => applyRef r owner x
 
